@@ -146,7 +146,7 @@ def one_case(args):
         # some outputs go to a sibling directory whose name extends the working directory's name
         os.makedirs(sibling)
         beh['sibling'] = sorted(beh['files'])[:rng.randint(1, len(beh['files']))]
-        if rng.random() < 0.5:
+        if rng.random() < 0.7:
             # one of them is also written, under the same name, in the main output directory
             beh['both'] = [rng.choice(beh['sibling'])]
     command = G.gen_command(rng)
